@@ -393,7 +393,11 @@ fn main() {
 		true,
 	);
 	let big: Vec<usize> = if thorough { (6..=300).collect() } else { vec![6, 7, 8, 15, 16, 17, 100, 254, 255, 256, 257, 300] };
-	h.go(&CtSys { name: "CollapseTimeframe/deviation/period=6..=300".into(), periods: big, alphabet: k.clone(), keep_hist: false, flat: true }, &Limits::deviation(if thorough { 2 } else { 1 }, 700), true);
+	h.go(&CtSys { name: "CollapseTimeframe/deviation/period=6..=300".into(), periods: big.clone(), alphabet: k.clone(), keep_hist: false, flat: true }, &Limits::deviation(1, 700), true);
+	if thorough {
+		let some: Vec<_> = big.iter().copied().filter(|p| [6, 7, 8, 16, 60, 254, 255, 256, 300].contains(&(*p as usize))).collect();
+		h.go(&CtSys { name: "CollapseTimeframe/deviation-2/selected-periods".into(), periods: some, alphabet: k.clone(), keep_hist: false, flat: true }, &Limits::deviation(2, 400), true);
+	}
 	h.go(&HaSys { alphabet: { let mut a = k.clone(); a.push(cd(10.1, 10.7, 9.3, 10.3, 1.7)); a.push(cd(1e-3, 1e3, 1e-3, 1e3, 1.0)); a } }, &Limits::depth(if thorough { 6 } else { 5 }), true);
 	let sizes: Vec<V> = if IS_F32 { vec![0.0078125, 0.01, 0.1, 0.5] } else { vec![0.0078125, 0.01, 0.1, 0.5] };
 	h.go(&RkSys { sizes, srcs: vec![Source::Close, Source::TP, Source::HL2], v0s: vec![100.0, 1.0, 123.456] }, &Limits::depth(if thorough { 5 } else { 4 }).wall_secs(600), true);
